@@ -256,8 +256,14 @@ Fixpoint insert_lex (x : list Z) (l : list (list Z)) : list (list Z) :=
   | y :: r => if lex_leb x y then x :: l else y :: insert_lex x r
   end.
 Definition sort_lex (l : list (list Z)) : list (list Z) := fold_right insert_lex [] l.
-Definition canon_log (log : list obs) : list Z :=
+Definition canon_log_full (log : list obs) : list Z :=
   zlen log :: flat_map (fun r => zlen r :: r) (sort_lex (map canon_obs log)).
+(* the case files carry a digest of each step's (sorted) observation list instead of the list
+   itself: parsing 10^5 numerals costs more than evaluating the model *)
+Definition digest (l : list Z) : Z :=
+  fold_left (fun h x => ((h * 1000003 + x + 12345) mod 2305843009213693951)%Z) l 7%Z.
+Definition canon_log (log : list obs) : list Z :=
+  [zlen log; digest (canon_log_full log)].
 
 Definition canon_node (n : node) : list Z :=
   match n_kind n with
@@ -279,3 +285,14 @@ Fixpoint run_script (w : world) (s : list (Z * event)) : res (list Z) :=
   end.
 Definition canon_run (w : world) (s : list (Z * event)) : list Z :=
   match run_script w s with Ok l => 0%Z :: l | Err e => [1%Z; err_code e] end.
+
+Fixpoint run_script_full (w : world) (s : list (Z * event)) : res (list Z) :=
+  match s with
+  | [] => Ok (canon_world w)
+  | (T, e) :: r =>
+      do x <- step w T e;
+      do y <- run_script_full (fst x) r;
+      Ok (canon_log_full (snd x) ++ y)
+  end.
+Definition canon_run_full (w : world) (s : list (Z * event)) : list Z :=
+  match run_script_full w s with Ok l => 0%Z :: l | Err e => [1%Z; err_code e] end.
